@@ -683,6 +683,11 @@ class SyncObj(object):
                     logger.error(
                         'request to switch to unsupported code version (self version: %d, requested version: %d)' %
                         (self.__selfCodeVersion, e.ver))
+                    # This node cannot apply the entry: it stops here. Going on with the following
+                    # entries would skip it, and the next tick would apply them a second time.
+                    if subscribers:
+                        self.__commandsWaitingCommit[entry[1]] = subscribers
+                    break
 
             if not self.__conf.appendEntriesUseBatch:
                 needSendAppendEntries = True
